@@ -419,7 +419,7 @@ def match_d17(case, failure):
 
 
 SUBCHECKS = [
-    SubCheck("convection_order", check_conv, strategy=strat_conv, examples={"quick": 24, "thorough": 150}, shards={"quick": 8, "thorough": 16}),
+    SubCheck("convection_order", check_conv, strategy=strat_conv, examples={"quick": 40, "thorough": 150}, shards={"quick": 8, "thorough": 16}),
     SubCheck("convection_order_refined", check_conv_refined, strategy=strat_conv_refined, examples={"quick": 8, "thorough": 60}, shards={"quick": 6, "thorough": 16}),
     SubCheck("riemann_convergence", check_riemann, strategy=strat_riemann, examples={"quick": 12, "thorough": 80}, shards={"quick": 8, "thorough": 16}),
     SubCheck("packaged_riemann", check_packaged, strategy=strat_packaged, examples={"quick": 100, "thorough": 600}, shards={"quick": 2, "thorough": 8}),
